@@ -50,7 +50,11 @@ class History(object):
         self.timed = bool(init["timed"])
         if self.timed and real.T is None:
             real.T = np.arange(real.n, dtype=float) * 0.5 + 100.0
-        if self.timed and init.get("tzero") is not None:
+        if self.timed and init.get("epoch"):
+            real.T = real.T + 1.5e9   # UNIX-epoch sized stamps (spacing unchanged up to rounding)
+            if not np.all(np.diff(real.T) > 0):
+                real.T = 1.5e9 + np.arange(real.n, dtype=float) * 0.5
+        if self.timed and init.get("tzero") is not None and not init.get("epoch"):
             # time axis relative to one of the poses: that pose has the stamp 0.0 exactly, earlier ones are negative
             Tz = real.T - real.T[int(init["tzero"]) % real.n]
             if np.all(np.diff(Tz) > 0):
@@ -489,7 +493,7 @@ st_init = st.integers(1, 12).flatmap(lambda n: st.fixed_dictionaries({
     "traj": trajgen.st_traj(n, stamps=True, exp_lo=-2, exp_hi=4), "timed": st.booleans(), "share": st.sampled_from([False, False, True]),
     "qscale": st.one_of(st.none(), st.none(), st.lists(st.sampled_from([0.0, 4e-6, -4e-6, 9e-6, 2e-7]), min_size=1, max_size=4)),
     "pre": st.lists(st.sampled_from(trajgen.VIEWS), max_size=2, unique=True),
-    "tzero": st.one_of(st.none(), st.none(), st.integers(0, 11))}))
+    "tzero": st.one_of(st.none(), st.none(), st.integers(0, 11)), "epoch": st.sampled_from([False, False, True])}))
 st_init_bulk = st.fixed_dictionaries({"bulk": st.fixed_dictionaries({"n": st.just(200), "seed": st.integers(0, 2 ** 32), "mode": st.sampled_from(["pq", "se3"])}),
                                       "timed": st.booleans(), "pre": st.lists(st.sampled_from(trajgen.VIEWS), max_size=1)})
 
